@@ -41,3 +41,37 @@ def guarded(f):
     except Exception as e:
         if type(e).__name__ == '_Timeout': raise
         return 'ERR'
+
+
+def aggregate(ns, parts):
+    """Build a property plugin out of part modules (each a plugin restricted to the op prefixes in its PREFIX tuple).
+    Usage in tools/props/Cxx.py:  from props.common import aggregate; from props.parts import a, b; aggregate(globals(), [a, b])"""
+    def part_of(line):
+        op = line.split(' ', 1)[0]
+        for p in parts:
+            if op.startswith(tuple(p.PREFIX)): return p
+        raise RuntimeError('no part handles ' + op)
+    ns['LEAN_PROOFS'] = [m for p in parts for m in p.LEAN_PROOFS]
+    ns['GEN_ITEMS'] = sorted({g for p in parts for g in getattr(p, 'GEN_ITEMS', [])})
+    ns['TRUSTED'] = [t for p in parts for t in getattr(p, 'TRUSTED', [])]
+    ns['ASSUMPTIONS'] = [t for p in parts for t in getattr(p, 'ASSUMPTIONS', [])]
+    ns['run_impl'] = lambda line: part_of(line).run_impl(line)
+    def check_impl(line, res):
+        p = part_of(line)
+        return p.check_impl(line, res) if hasattr(p, 'check_impl') else None
+    ns['check_impl'] = check_impl
+    def cases(tier, rng):
+        import itertools
+        if tier == 'search':
+            gens = [p.cases(tier, rng) for p in parts]
+            while gens:
+                for g in list(gens):
+                    try: yield next(g)
+                    except StopIteration: gens.remove(g)
+        else:
+            for p in parts: yield from p.cases(tier, rng)
+    ns['cases'] = cases
+    def shrink(line):
+        p = part_of(line)
+        return p.shrink(line) if hasattr(p, 'shrink') else []
+    ns['shrink'] = shrink
